@@ -828,6 +828,23 @@ impl ColumnStore {
         proof { axiom_string_keys::<ColumnId>(); }
 //@end
 
+//@fn ColumnStore::clear_row
+//@requires
+        old(self).wf(),
+//@ensures
+        final(self).wf(),                                                                                      //#keeps_wf
+        forall|row: usize, k: String| #[trigger] final(self).at(row, k)
+            == if row == idx { None } else { old(self).at(row, k) },                                          //#the_row_is_empty_and_no_other_row_changes
+//@loop 1 index=ci
+            invariant
+                0 <= ci <= self.columns@.len(), self.columns@.len() == old(self).columns@.len(),
+                self.names@ == old(self).names@, self.index@ == old(self).index@,
+                forall|c: int| 0 <= c < self.columns@.len() ==> (#[trigger] self.columns@[c]).wf(),
+                forall|c: int, row: usize| 0 <= c < ci ==> #[trigger] self.columns@[c].at(row) == if row == idx { None } else { old(self).columns@[c].at(row) },      //#cleared_columns_so_far
+                forall|c: int| ci <= c < self.columns@.len() ==> self.columns@[c] == old(self).columns@[c],      //#later_columns_untouched
+            decreases self.columns@.len() - ci
+//@end
+
 //@fn ColumnStore::get_property ret=r
 //@requires
         self.wf(),
